@@ -67,6 +67,9 @@ def ser_items(items, v):
             out.append(f'<{t} style="{it[1]}">{ser_items(it[2], v)}</{t}>')
         elif it[0] == "font":
             out.append(f'<font color="red">{ser_items(it[1], v)}</font>')
+        elif it[0] == "el":          # ("el", tag, attribute text, items, flags it switches on)
+            t = it[1].upper() if v["upper"] else it[1]
+            out.append(f"<{t} {it[2]}>{ser_items(it[3], v)}</{t}>")
         else:
             raise AssertionError(it)
     return "".join(out)
@@ -134,6 +137,8 @@ def shown(items, flags=(False, False, False)):
             out += shown(it[2], tuple(f))
         elif it[0] == "font":
             out += shown(it[1], flags)
+        elif it[0] == "el":
+            out += shown(it[3], tuple(a or b for a, b in zip(flags, it[4])))
     return out
 
 
@@ -182,6 +187,11 @@ def documents(thorough):
     for k, m in enumerate(marks):
         yield f"markup {k}", {"langs": one, "variant": variants[k % len(variants)],
                               "cues": {"en-US": [(1000, 2000, m), (3000, None, ["after"])]}}
+    # a style class / id of the stylesheet referenced in another letter case than it is declared in
+    yield "class and id references in mixed case", {
+        "langs": one, "variant": variants[1], "extra_css": [(".EmPh", "font-style: italic;"), ("#BiG", "font-weight: bold;")],
+        "cues": {"en-US": [(1000, 2000, ["a ", ("el", "span", 'class="EMPH"', ["slanted"], (True, False, False)), " b"]),
+                           (3000, None, [("el", "span", 'id="big"', ["heavy"], (False, True, False)), " tail"])]}}
     # languages: interleaved, coinciding, disjoint; the second language first in time; three languages; lang attribute
     yield "two languages, same syncs", {"langs": two, "cues": {"en-US": [(1000, 2000, ["hello"]), (3000, 4000, ["bye"])],
                                                                "fr": [(1000, 2000, ["bonjour"]), (3000, 4000, ["au revoir"])]}}
